@@ -118,6 +118,18 @@ impl ListDto {
   }
 }
 
+/// Returns the simple value for a number. A number that is not finite (the result of an operation
+/// that left the range of decimal numbers) has no `xsd:decimal` representation - the text `NaN` or
+/// `Infinity` is refused when such a value is sent in - and is answered as nil, like `null`.
+fn simple_number(value: &Value) -> Option<SimpleDto> {
+  let text = value.to_string();
+  if text.contains("NaN") || text.contains("Infinity") {
+    SimpleDto::nil()
+  } else {
+    SimpleDto::some("xsd:decimal", &text)
+  }
+}
+
 impl TryFrom<Value> for OutputNodeDto {
   type Error = DmntkError;
   /// Tries to convert [Value] to [OutputNodeDto].
@@ -131,7 +143,7 @@ impl TryFrom<Value> for OutputNodeDto {
       }),
       v @ Value::Number(_) => Ok(OutputNodeDto {
         value: Some(ValueDto {
-          simple: SimpleDto::some("xsd:decimal", &v.to_string()),
+          simple: simple_number(&v),
           ..Default::default()
         }),
       }),
@@ -220,7 +232,7 @@ impl TryFrom<&Value> for ValueDto {
         ..Default::default()
       }),
       v @ Value::Number(_) => Ok(ValueDto {
-        simple: SimpleDto::some("xsd:decimal", &v.to_string()),
+        simple: simple_number(v),
         ..Default::default()
       }),
       v @ Value::Boolean(_) => Ok(ValueDto {
